@@ -251,6 +251,31 @@ func keyContexts() *hk.Result {
 	if bytes.Equal(keyBytes(w1.(*aead.Wrapper)), keyBytes(w2.(*aead.Wrapper))) || bytes.Equal(keyBytes(w1.(*aead.Wrapper)), keyBytes(base)) {
 		add("derivation", "per-event keys do not depend on the event id / equal the base key")
 	}
+	// a wrapper that is not one of the key-exposing kinds (here: a decorator around the aead wrapper): HMAC
+	// keys are derived from the wrapper's secret key bytes or not at all - the event fails, or its digests
+	// are the ones under the decorated wrapper's key; never digests under a key made from public data
+	for _, val := range values {
+		deco := &shapes.FailingWrapper{Wrapper: base, FailAt: 0}
+		p := &plainPayload{S: val, B: []byte(val), HS: val, HB: []byte(val), HS2: val}
+		out, err := (&encrypt.Filter{Wrapper: deco, HmacSalt: []byte("s"), HmacInfo: []byte("i")}).Process(ctx, &el.Event{Type: "t", Payload: p})
+		name := fmt.Sprintf("decorated wrapper val=%q", trunc(val))
+		if err != nil && out == nil {
+			add(name, "")
+		} else if err != nil || out == nil {
+			add(name, fmt.Sprintf("Process returned (forwarded=%v, err=%v)", out != nil, err))
+		} else if !add(name, verify(out.Payload, val, keyMaterial{base, []byte("s"), []byte("i")}, "", nil, nil)) {
+			return res
+		}
+		ep := newEwPayload("ev-1", nil, nil, val)
+		out, err = (&encrypt.Filter{Wrapper: deco, HmacSalt: []byte("s"), HmacInfo: []byte("i")}).Process(ctx, &el.Event{Type: "t", Payload: ep})
+		if err != nil && out == nil {
+			add(name+" event-wrapper", "")
+		} else if err != nil || out == nil {
+			add(name+" event-wrapper", fmt.Sprintf("Process returned (forwarded=%v, err=%v)", out != nil, err))
+		} else if !add(name+" event-wrapper", verify(out.Payload, val, keyMaterial{base, []byte("s"), []byte("i")}, "ev-1", nil, nil)) {
+			return res
+		}
+	}
 	for _, val := range values {
 		for _, fsalt := range [][]byte{nil, []byte("filter-salt")} {
 			for _, finfo := range [][]byte{nil, []byte("filter-info")} {
